@@ -329,6 +329,79 @@ fn case<G: CurveTag>(bytes: &[u8], col: &mut Collector, max_depth: usize) -> Res
     Ok(())
 }
 
+
+/// Variables with indices beyond 2^16: 65 536 zero-valued filler commitments, then two real
+/// ones; a long expression built with `+` / `-` over high- and low-index variables of every
+/// kind must still mean what it spells.
+fn huge_index_case<G: CurveTag>(col: &mut Collector) -> Result<(), Failure> {
+    const FILL: usize = 65_536;
+    let vals: Vec<Fr<G>> = (0..8).map(|i| ScalarSpec::Rand(900 + i).to_f()).collect();
+    // assignment: hi0, hi1, l0, r0, o0, l1, r1, o1, filler(=0), one
+    let a: Vec<Fr<G>> = vec![vals[0], vals[1], vals[2], vals[3], vals[2] * vals[3], vals[4], vals[5], vals[4] * vals[5], Fr::<G>::zero(), Fr::<G>::one()];
+    let coeffs: Vec<Fr<G>> = (0..90).map(|i| ScalarSpec::Rand(2000 + i).to_f()).collect();
+    let value: Fr<G> = (0..90).map(|t| if t % 2 == 0 { coeffs[t] * a[t % 10] } else { -(coeffs[t] * a[t % 10]) }).sum();
+    let build = |v: &[Variable<Fr<G>>]| -> LinearCombination<Fr<G>> {
+        let mut lc = LinearCombination::default();
+        for t in 0..90 {
+            let term = v[t % 10] * coeffs[t];
+            lc = if t % 2 == 0 { lc + term } else { lc - term };
+        }
+        lc
+    };
+    let run = |target: Fr<G>| -> Result<Result<(), R1CSError>, String> {
+        guarded(|| {
+            let pc = pc_gens::<G>();
+            let gens = bp_gens::<G>(2, 1);
+            let mut tp = Transcript::new(b"c15-huge");
+            let mut prover = Prover::new(&pc, &mut tp);
+            let mut coms = Vec::with_capacity(FILL + 2);
+            let mut filler = Variable::One();
+            for i in 0..FILL {
+                let (c, v) = prover.commit(Fr::<G>::zero(), Fr::<G>::zero());
+                coms.push(c);
+                if i == 5 {
+                    filler = v;
+                }
+            }
+            let (c0, h0) = prover.commit(a[0], ScalarSpec::Rand(1).to_f());
+            let (c1, h1) = prover.commit(a[1], ScalarSpec::Rand(2).to_f());
+            let (l0, r0, o0) = prover.allocate_multiplier(Some((a[2], a[3])))?;
+            let (l1, r1, o1) = prover.allocate_multiplier(Some((a[5], a[6])))?;
+            let vars = [h0, h1, l0, r0, o0, l1, r1, o1, filler, Variable::One()];
+            prover.constrain(build(&vars) - target);
+            let mut rng = CountingRng::new(77, 3);
+            let proof = prover.prove(&mut rng, &gens)?;
+            let mut tv = Transcript::new(b"c15-huge");
+            let mut verifier = Verifier::<G, _>::new(&mut tv);
+            let mut filler = Variable::One();
+            for (i, c) in coms.iter().enumerate() {
+                let v = verifier.commit(*c);
+                if i == 5 {
+                    filler = v;
+                }
+            }
+            let (h0, h1) = (verifier.commit(c0), verifier.commit(c1));
+            let (l0, r0, o0) = verifier.allocate_multiplier(None)?;
+            let (l1, r1, o1) = verifier.allocate_multiplier(None)?;
+            let vars = [h0, h1, l0, r0, o0, l1, r1, o1, filler, Variable::One()];
+            verifier.constrain(build(&vars) - target);
+            verifier.verify(&proof, &pc, &gens)
+        })
+    };
+    let what = || json!({"curve": G::CURVE.name(), "commitments": FILL + 2, "expression": "90 terms alternating + and - over Committed(65536), Committed(65537), both gates' wires, Committed(5), One"});
+    match run(value) {
+        Ok(Ok(())) => {}
+        other => return Err(Failure::new("C15:huge-index:rejected-at-reference-value", format!("with 65 538 commitments, constraining expr - value(expr) gave {:?}", other), what())),
+    }
+    match run(value + Fr::<G>::one()) {
+        Ok(Err(_)) => {}
+        other => return Err(Failure::new("C15:huge-index:accepted-off-value", format!("with 65 538 commitments, constraining expr - (value(expr)+1) gave {:?}", other), what())),
+    }
+    col.class("variable-index>=2^16");
+    col.nontrivial(fp_of(&(G::CURVE, "huge-index")));
+    Ok(())
+}
+
 fn dispatch(sub: &str, bytes: &[u8], col: &mut Collector) -> Result<(), Failure> {
     let mut it = sub.split('/');
     let _ = it.next();
@@ -338,6 +411,9 @@ fn dispatch(sub: &str, bytes: &[u8], col: &mut Collector) -> Result<(), Failure>
 }
 
 pub fn replay(sub: &str, bytes: &[u8], col: &mut Collector) -> Result<(), Failure> {
+    if sub == "c15/huge-index" && bytes.len() == 1 {
+        return with_curve!(Curve::ALL[bytes[0] as usize % 3], G => huge_index_case::<G>(col));
+    }
     dispatch(sub, bytes, col)
 }
 
@@ -354,6 +430,13 @@ pub fn run(tier: &str, seed: u64) -> i32 {
         let sub = format!("c15/{}/{}", c.name(), depth);
         rep.outcome.merge(replay_corpus("C15", &sub, &|b, col| dispatch(&sub, b, col)));
         rep.outcome.merge(search(&sub, seed, n, 500, &|b, col| dispatch(&sub, b, col)));
+    }
+    // variable indices beyond 2^16 (one case on a rotating curve; all curves in the thorough tier)
+    if rep.outcome.found.is_empty() {
+        let curves: Vec<Curve> = if tier == "thorough" { Curve::ALL.to_vec() } else { vec![Curve::ALL[(seed % 3) as usize]] };
+        let o = crate::runner::enumerate("c15/huge-index", &curves, &|c| vec![c.index() as u8], &|c, col| with_curve!(*c, G => huge_index_case::<G>(col)));
+        rep.outcome.merge(o);
+        rep.outcome.exhaustive = false;
     }
     for op in ["-Var", "Var*F", "Var*u64", "Var+Lc", "Var-Lc", "Var+Var", "Var-Var", "Var+F", "Var-F", "-Lc", "Lc*F", "Lc*u64", "Lc+Lc", "Lc-Lc", "Lc+Var", "Lc-Var", "Lc+F", "Lc-F", "From<Variable>", "From<F>", "Default", "FromIterator(owned)", "FromIterator(&)"] {
         rep.required_classes.push((format!("op:{}", op), 0.01));
